@@ -490,6 +490,28 @@ def import_closure(anchors):
                     r = os.path.relpath(cand, REPO)
                     if r not in seen:
                         todo.append(r)
+    # ... and the modules that import an anchored module directly (implementations of an anchored base class, such as
+    # the ST4 / ST6 source terms of balance/generation.py and dissipation.py, are reached through a factory)
+    anchor_mods = set()
+    for rel in anchors:
+        if rel.startswith("src/") and rel.endswith(".py"):
+            anchor_mods.add(rel[4:-3].replace("/", "."))
+    for root, _dirs, files in os.walk(os.path.join(src, pkg)):
+        for fn in files:
+            if not fn.endswith(".py"):
+                continue
+            cand = os.path.join(root, fn)
+            r = os.path.relpath(cand, REPO)
+            if r in seen:
+                continue
+            try:
+                tree = _ast.parse(open(cand).read())
+            except (OSError, SyntaxError):
+                continue
+            for node in _ast.walk(tree):
+                if isinstance(node, _ast.ImportFrom) and node.module in anchor_mods:
+                    seen.append(r)
+                    break
     return seen
 
 
